@@ -41,7 +41,11 @@ class _Json:
 
     def loads(self, data, *a, **k):
         if data == MARK:
-            return {'token': self._token}
+            # a fresh structure per decode, as a real decoder gives (the
+            # tool rewrites the token in place)
+            t = dict(self._token)
+            t['roles'] = [dict(r) for r in self._token['roles']]
+            return {'token': t}
         return self._real.loads(data, *a, **k)
 
     def __getattr__(self, name):
@@ -162,6 +166,20 @@ def run_checker(ctx, seed, index, with_default, targetfile, sample=None):
             tf = env.path('target.json')
             open(tf, 'w').write(json.dumps(file_target))
         shell.jsonutils = _Json(saved, token)
+        if bool(ctx.bool('tool_ran_before_on_another_file')):
+            # the function is called twice in one process (a test suite, a
+            # doc build): an earlier run on a DIFFERENT policy file, in which
+            # the helper rules mean the opposite, leaves nothing behind
+            inverse = {'helper': '@', 'svc:owner': '@', 'admin_required': '!',
+                       'default': '!', 'svc:get': 'rule:helper',
+                       'undefined': '@'}
+            pf0 = env.write('earlier.yaml', inverse)
+            with contextlib.redirect_stdout(io.StringIO()):
+                try:
+                    shell.tool(pf0, af, None, is_admin=not is_admin)
+                except Exception:
+                    pass
+            ctx.cover('checker:second-run')
         buf = io.StringIO()
         crashed = None
         with contextlib.redirect_stdout(buf):
@@ -257,7 +275,7 @@ def cubes_checker(tier, seed):
 
 
 HARNESSES = {'checker': {'fn': run_checker, 'cubes': cubes_checker}}
-REQUIRED_COVER = ['checker:compared', 'checker:undefined-requested']
+REQUIRED_COVER = ['checker:second-run', 'checker:compared', 'checker:undefined-requested']
 
 
 def evidence(tier):
